@@ -66,6 +66,7 @@ type result struct {
 	Owned     bool              `json:"owned,omitempty"`
 	Cases     int               `json:"cases,omitempty"`
 	Known     map[string]string `json:"known,omitempty"`
+	Shape     string            `json:"shape,omitempty"`
 }
 
 // scenario plan per property: scenario name and share of the time budget
@@ -262,7 +263,7 @@ func (a *agg) add(r *result) {
 	key := r.Class + "/" + strconv.FormatUint(r.Digest, 16)
 	a.distinct[key] = true
 	if r.NOps > 0 && r.Steps > 10 {
-		a.nontriv[key] = true
+		a.nontriv[r.Shape] = true
 	}
 	a.steps += int64(r.Steps)
 	a.simMs += r.SimMs
@@ -317,7 +318,7 @@ func runWorkers(b *build, prop string, p part, seed uint64, secs float64, a *agg
 			args := []string{"-known", filepath.Join(b.scratch, "known.txt"), "-prop", prop, "-scen", p.Scen, "-seed", strconv.FormatUint(seed, 10), "-from", strconv.Itoa(w),
 				"-stride", strconv.Itoa(nw), "-n", "100000000", "-secs", fmt.Sprintf("%.1f", secs)}
 			cmd := exec.Command(bin, args...)
-			cmd.Env = append(os.Environ(), "GORACE=halt_on_error=0 log_path="+filepath.Join(b.scratch, fmt.Sprintf("race-%d", w)))
+			cmd.Env = append(os.Environ(), "GORACE=halt_on_error=0 exitcode=0 log_path="+filepath.Join(b.scratch, fmt.Sprintf("race-%d", w)))
 			out, _ := cmd.StdoutPipe()
 			var errb bytes.Buffer
 			cmd.Stderr = &errb
@@ -378,7 +379,7 @@ func runOne(b *build, p params, race bool) (*result, error) {
 		bin = b.raceW
 	}
 	cmd := exec.Command(bin, "-known", filepath.Join(b.scratch, "known.txt"), "-replay", f)
-	cmd.Env = append(os.Environ(), "GORACE=halt_on_error=0 log_path="+filepath.Join(b.scratch, "race-replay"))
+	cmd.Env = append(os.Environ(), "GORACE=halt_on_error=0 exitcode=0 log_path="+filepath.Join(b.scratch, "race-replay"))
 	var out, errb bytes.Buffer
 	cmd.Stdout = &out
 	cmd.Stderr = &errb
@@ -434,7 +435,7 @@ func minimise(b *build, r *result, race bool, budget time.Duration) *result {
 		sort.Ints(sk)
 		p.Skip = sk
 		nr, err := runOne(b, p, race)
-		if err != nil || nr.V == nil || nr.V.Sig != r.V.Sig {
+		if err != nil || nr.V == nil || !sameViolation(nr.V, r.V) {
 			return false
 		}
 		best = nr
@@ -488,6 +489,17 @@ func minimise(b *build, r *result, race bool, budget time.Duration) *result {
 		n *= 2
 	}
 	return best
+}
+
+// sameViolation: same signature; for data races the same oracle suffices,
+// because ThreadSanitizer reports each pair of stacks once per process, so
+// which of several racing pairs is named first differs between a batch
+// process and a fresh one.
+func sameViolation(a, b *violation) bool {
+	if a.Tag == "race" && b.Tag == "race" {
+		return true
+	}
+	return a.Sig == b.Sig
 }
 
 type knownFinding struct {
@@ -663,7 +675,7 @@ func check(prop, tier string) int {
 			}
 			m := minimise(b, v, p.Race, minb)
 			conf, err := runOne(b, m.Params, p.Race)
-			if err != nil || conf.V == nil || conf.V.Sig != v.V.Sig {
+			if err != nil || conf.V == nil || !sameViolation(conf.V, v.V) {
 				b.cleanup()
 				die2("determinism failure of the machinery: violation %s of seed %d did not reproduce in a fresh process (%v)", v.V.Sig, v.Params.Seed, err)
 			}
@@ -695,7 +707,13 @@ func check(prop, tier string) int {
 			break
 		}
 	}
-	if a.runs > 0 && sumMap(a.incon) == a.runs {
+	for k := range a.incon {
+		if strings.HasPrefix(k, "worker-died") && exit == 0 {
+			b.cleanup()
+			die2("a worker process died (not reported as a violation: the cause is unknown): %s", k)
+		}
+	}
+	if a.runs == 0 || sumMap(a.incon) >= a.runs {
 		b.cleanup()
 		die2("every run was inconclusive: %v", a.incon)
 	}
@@ -763,8 +781,11 @@ func writeEvidence(prop, tier string, seed uint64, a *agg, b *build, wall, build
 		"simulated_runs":      a.runs,
 		"distinct_nontrivial": distinct,
 		"rule": "one evaluation = one simulated run (or, for the fault-enumerating scenarios, one materialised crash/fault state); a run is drawn from " +
-			"VERIF_SEED (configuration, value pools, operation history, schedule, fault placement); distinct = different (configuration class, " +
-			"event-log digest) pairs; non-trivial = at least one operation executed and more than 10 scheduling points",
+			"VERIF_SEED (configuration, value pools, operation history, schedule, fault placement); distinct_nontrivial counts distinct run SHAPES among " +
+			"non-trivial runs (at least one operation and more than 10 scheduling points), a shape being (configuration class incl. scenario class such as " +
+			"fault set / schedule generator / struct variant, multiset of operation kinds, reach probes and fault kinds capped at 3, bucketed number of " +
+			"scheduler decisions); distinct_event_logs counts distinct (configuration class, event-log digest) pairs",
+		"distinct_event_logs":   len(a.distinct),
 		"samples":               samples,
 		"runs_per_hour":         int(float64(a.runs) / runWall * 3600),
 		"simulated_time_s":      float64(a.simMs) / 1000,
